@@ -206,6 +206,30 @@ def install(E):
         return VBool(False)
     M["builtins.isinstance"] = b_isinstance
 
+    # contextlib.suppress(*exception classes)
+    def cl_suppress(ctx, args, kw):
+        o = ctx.alloc("model:suppress", {})
+        names = []
+        for x in args:
+            if isinstance(x, VExt):
+                names.append(x.dotted.replace("builtins.", ""))
+            elif isinstance(x, VClass):
+                names.append(x.qual.split(":")[1])
+            else:
+                raise Unsupported("contextlib.suppress argument")
+        ctx.heap[o.oid]["classes"] = names
+        return o
+    M["contextlib.suppress"] = cl_suppress
+
+    # os.unlink / os.remove without a filesystem model installed: succeeds or raises OSError, no other effect modelled
+    def os_unlink_default(ctx, args, kw):
+        if ctx.choose(2, "os.unlink: ok/OSError") == 1:
+            raise PyRaise(VExc("OSError", VStr(ctx.fresh_str("oserr")), origin="os.unlink"))
+        return NONE
+    M.setdefault("os.unlink", os_unlink_default)
+    M.setdefault("os.remove", os_unlink_default)
+    M[("with", "model:suppress")] = lambda ctx, cm: (NONE, (lambda c: None), (lambda c, exc: any(E.exc_isinstance(c, exc, n) for n in c.heap[cm.oid]["classes"])))
+
     def b_set(ctx, args, kw):
         if not args:
             return ctx.alloc_list([])
